@@ -260,10 +260,19 @@ def clause_b(repo, chk):
                 d_ok = False
                 chk.violation("B-loop", fn.key, "default:%s" % meth, "list `%s` receives %s for bounded parameters but %s (expected %s) for unbounded ones" % (lst, meth, norm_text(dv) if dv is not None else "nothing", DEFAULTS[meth]), file=VAR, line=iff.lineno)
         chk.instance("B-loop", "%s: calls=%s same-arg=%s y-index=%s defaults=%s" % (fn.key, sorted(got), same_arg, y_ok, {k: norm_text(v) for k, v in dflt.items()}))
+        # the four wrappers are decided as a whole by B-wrap (interpretation: where the slopes are evaluated, what the
+        # inner function is called with); for them the spelling of the loop is reported, not judged
+        by_wrap = qual.split(".")[-1] in ("trans_fcn_grad", "trans_grad_hessp", "trans_f_grad_hess", "trans_error_matrix")
         if not same_arg and idx_ok:
-            chk.violation("B-loop", fn.key, "argument", "get_* are evaluated at different arguments: %s" % sorted(map(str, args)), file=VAR, line=iff.lineno)
+            if by_wrap:
+                chk.info("B-loop: %s: get_* spelt with different argument expressions %s (decided by B-wrap)" % (fn.key, sorted(map(str, args))))
+            else:
+                chk.violation("B-loop", fn.key, "argument", "get_* are evaluated at different arguments: %s" % sorted(map(str, args)), file=VAR, line=iff.lineno)
         if not y_ok:
-            chk.violation("B-loop", fn.key, "y-index", "y[i] is not computed from x[i] of the same index", file=VAR, line=iff.lineno)
+            if by_wrap:
+                chk.info("B-loop: %s: y[i] not spelt as a function of x[i] (decided by B-wrap)" % fn.key)
+            else:
+                chk.violation("B-loop", fn.key, "y-index", "y[i] is not computed from x[i] of the same index", file=VAR, line=iff.lineno)
     chk.require_count("B-loop", 5)
 
     # ---- chain-rule formulas (statements after the loop, evaluated on a 2-parameter component model)
@@ -469,6 +478,23 @@ def clause_c(repo, chk):
         def mentions(node_ast, name_attr=attr, name_par=par):
             has_attr = any((isinstance(x, ast.Attribute) and x.attr == name_attr) or (isinstance(x, ast.Name) and x.id in aliases) for x in ast.walk(node_ast))
             has_par = any(isinstance(x, ast.Name) and x.id == name_par for x in ast.walk(node_ast))
+            # a helper method of the class that is handed the argument and fills the buffer from it
+            for c_ in ast.walk(node_ast):
+                if isinstance(c_, ast.Call) and isinstance(c_.func, ast.Attribute) and isinstance(c_.func.value, ast.Name) and c_.func.value.id == "self" and fn.cls is not None:
+                    h_ = fn.cls.lookup(c_.func.attr)
+                    if h_ is None:
+                        continue
+                    hp = [p_ for p_ in h_.all_param_names() if p_ != "self"]
+                    bound_ = {hp[i_]: a_ for i_, a_ in enumerate(c_.args) if i_ < len(hp)}
+                    bound_.update({k_.arg: k_.value for k_ in c_.keywords if k_.arg})
+                    inner_pars = {k_ for k_, v_ in bound_.items() if isinstance(v_, ast.Name) and v_.id == name_par}
+                    for st_ in h_.node.body:
+                        if isinstance(st_, ast.If) and norm_text(st_.test).replace(" ", "").startswith(("nothasattr(self,", "hasattr(self,")):
+                            continue
+                        m_attr = any(isinstance(x, ast.Attribute) and x.attr == name_attr for x in ast.walk(st_))
+                        m_par = any(isinstance(x, ast.Name) and x.id in inner_pars for x in ast.walk(st_))
+                        if m_attr and m_par:
+                            has_attr = has_par = True
             return has_attr, has_par
 
         def scan(node):
@@ -541,7 +567,9 @@ def clause_d(repo, chk):
                 return any(isinstance(x, ast.Call) and isinstance(x.func, ast.Attribute) and x.func.attr in setters and isinstance(x.func.value, ast.Name) and x.func.value.id == "self" for x in ast.walk(sc))
 
             def is_sink(node, sc):
-                return any(isinstance(x, ast.Call) and isinstance(x.func, ast.Attribute) and x.func.attr.startswith("get_constrain") for x in ast.walk(sc))
+                # (the constraint Hessian 1/sigma^2 does not depend on the parameter point - rule G-constr shows it - so it
+                # may be read at any time; value and gradient are taken at the current point)
+                return any(isinstance(x, ast.Call) and isinstance(x.func, ast.Attribute) and x.func.attr.startswith("get_constrain") and x.func.attr != "get_constrain_hessian" for x in ast.walk(sc))
 
             cfg, n_sinks, bad = must_pass(fn.node, is_event, is_sink)
             # inside one statement the setter must come first in evaluation order
@@ -552,7 +580,7 @@ def clause_d(repo, chk):
                 sc = scan_of(node)
                 if sc is not None and is_event(node, sc) and is_sink(node, sc):
                     pos_set = min((x.lineno, x.col_offset) for x in ast.walk(sc) if isinstance(x, ast.Call) and isinstance(x.func, ast.Attribute) and x.func.attr in setters)
-                    pos_con = min((x.lineno, x.col_offset) for x in ast.walk(sc) if isinstance(x, ast.Call) and isinstance(x.func, ast.Attribute) and x.func.attr.startswith("get_constrain"))
+                    pos_con = min((x.lineno, x.col_offset) for x in ast.walk(sc) if isinstance(x, ast.Call) and isinstance(x.func, ast.Attribute) and x.func.attr.startswith("get_constrain") and x.func.attr != "get_constrain_hessian")
                     if pos_con < pos_set:
                         inline_bad = node
             n += 1
@@ -869,6 +897,9 @@ def run(repo, chk, tier):
     from ..tapescope import check_tape_scope
 
     check_tape_scope(repo, chk, ["tf_pwa/model/"], min_functions=10)
+    from .c07_hesschain import check_hessian_chain
+
+    check_hessian_chain(repo, chk)
     check_transform_wrappers(repo, chk)
     check_sumvar(repo, chk)
     check_sumvar_call(repo, chk)
